@@ -157,6 +157,26 @@ def check_mode(case, ctx):
         ctx.nontrivial(bool(th) and (min(th) < 0.2 or max(th) > 5))
     else:
         ctx.nontrivial(True)
+    if kind == 'vib' and md['kind'] in ('harmonic', 'qrrho') and md['wn']:
+        # the caller's wavenumber array is the caller's: building and using a model (with a substitute for imaginary
+        # modes) leaves it alone, and a second model built from the same array without substitute drops them
+        arr = np.array(md['wn'], dtype=float)
+        keep = arr.copy()
+        from pmutt.statmech import vib as _vib
+
+        def mk(wn_, sub_):
+            if md['kind'] == 'harmonic':
+                return _vib.HarmonicVib(vib_wavenumbers=wn_, imaginary_substitute=sub_)
+            return _vib.QRRHOVib(vib_wavenumbers=wn_, Bav=md['Bav'], v0=md['v0'], alpha=md['alpha'], imaginary_substitute=sub_)
+        m1 = mk(arr, md.get('sub'))
+        gen.call(m1.get_UoRT, T=T)
+        if not np.array_equal(arr, keep):
+            ctx.fail('C01.modes/wavenumber-array-modified:%s' % cname, '%r -> %r' % (keep.tolist(), arr.tolist()))
+        else:
+            m2 = mk(arr, None)
+            m3 = mk(list(md['wn']), None)
+            ctx.close('C01.modes/second-model-from-the-same-array:%s' % cname, gen.call(m2.get_SoR, T=T), gen.call(m3.get_SoR, T=T),
+                      rtol=1e-13, atol=1e-13)
     val = {}
     for q in ('U', 'H', 'Cv', 'Cp', 'S', 'F', 'G'):
         name = {'U': 'get_UoRT', 'H': 'get_HoRT', 'Cv': 'get_CvoR', 'Cp': 'get_CpoR', 'S': 'get_SoR', 'F': 'get_FoRT',
